@@ -1,9 +1,11 @@
 """C10 — PDR verdicts are sound and definite, with genuine counterexamples."""
 HANDLER = "C10"
-RULE = ("generated bit-vector transition systems with at most 2^10 state valuations and at most 3 input bits, eleven families "
+RULE = ("generated bit-vector transition systems with at most 2^10 state valuations and at most 3 input bits, fourteen families "
         "(counters with enable/wrap/saturation/flags, shift registers with an input constraint, lock-step register pairs, one-hot rings, "
         "explicit FSM tables, random next-state logic, states without init / without next / constant, init reading an earlier state, "
-        "init reading an input); steered so that at most 40% are unsafe (least depth 0..14, spread over depth buckets) and at most 12% trivially safe, the rest "
+        "init reading an input (unsafe ones and SAFE ones whose state projection is spuriously unsafe), bad states that are dead ends under a "
+        "state constraint, relational init (a state whose init reads a state without init), bad-state expressions reading an input that the "
+        "constraints restrict); steered so that at most 40% are unsafe (least depth 0..14, spread over depth buckets) and at most 12% trivially safe, the rest "
         "safe with a property that is NOT inductive by itself (histograms `class`, `kind`); every system x {generalisation on, off} x "
         "{z3, cvc5, push/pop profile (patronus' YICES2 profile with z3 behind it; generalisation off only)} x solver seeds (wrapper scripts first on PATH add smt.random_seed/sat.random_seed/phase options) for systems with "
         "<= full-bits state bits (cvc5: <= cvc5-bits), z3 with generalisation only for the larger ones (histogram `config_set`); each run of the real patronus::mc::pdr in a child "
@@ -31,7 +33,7 @@ def streams(tier, seed):
         return [dict(tag="main", count=40, seed=seed, extra={"runs": "z3:0,4;cvc5:0,2;pushpop:0", "jobs": 8, "full-bits": 4, "cvc5-bits": 4, "small-share": 75})]
     out = []
     for k in range(3):
-        out.append(dict(tag="main%d" % k, count=70, seed=seed * 1000 + k,
+        out.append(dict(tag="main%d" % k, count=50, seed=seed * 1000 + k,
                         extra={"runs": "z3:0,1,2,3,4;cvc5:0,1,2;pushpop:0,1", "jobs": 10, "full-bits": 4, "cvc5-bits": 4, "small-share": 70}))
     return out
 
@@ -46,8 +48,10 @@ MANIFEST = dict(
                 "explicit-state fixpoint reach_spec returns Safe iff no bad state is reachable at any depth by a constrained execution of "
                 "Spec/System.v, Unsafe d iff d is the least such depth, and never runs out of fuel; C10_ic3_* - soundness of the abstract "
                 "IC3/PDR logic (frame invariants imply safety at a fixpoint, every operation preserves them under explicit side conditions, "
-                "obligation chains are real executions). Tie to /repo: the real patronus::mc::pdr is run against z3 and cvc5 (several seeds, "
+                "obligation chains are real executions; C10_ic3_block_sem: blocking for any frame representation, the side condition of the "
+                "proposed repair). Tie to /repo: the real patronus::mc::pdr is run against z3 and cvc5 (several seeds, "
                 "generalisation on/off) on generated systems and its verdict and witnesses are compared with reach_spec on every run."),
     level_note=("pdr.rs itself is modelled at the level of its verdict and abstract logic, not verified line by line; solver answer "
-                "choices are sampled. Known findings: PDR is unsound / errors when an init expression reads an input."),
+                "choices are sampled. Known findings: PDR is unsound / errors when an init expression reads an input (repair proposed in "
+                "patches/0001-fix-pdr-init-reads-input.diff); Err inherited from the C04 use-before-declare finding through the BMC fallback."),
 )
